@@ -33,6 +33,8 @@ package advanced
 //@   exit calls(Load) == 1 ==> calls(jobFunc) == 1
 //@   // an early-run signal runs the job
 //@   exit calls(monitorJobStartedOnSignal) == 1 ==> calls(jobFunc) == 1
+//@   // a job that is cancelled, or whose parent context ends, before it has started does not run
+//@   exit calls(monitorJobCancelled) == 1 ==> calls(jobFunc) == 0
 //@   // and whichever way the goroutine ends, the job is finalised exactly once (its channels are closed once)
 //@   exit calls(finaliseJob) == 1
 //@
